@@ -13,7 +13,9 @@ queue with their timestamps, the return of `set`).  Written from the property st
 
 The monitor knows only what an outside observer knows: the reports it has seen (hence the
 locally held triple before the call), the arguments of the call, whether versions are
-tracked, and the outputs.  It never looks at the model's state.
+tracked at the moment (initially, and after each frame-versions announcement), and the outputs.
+"When the controller does not announce parameter-version changes" is read per attempt: the
+flag is looked at when the set request is made.  It never looks at the model's state.
 -/
 namespace PlumVerif.C08
 open PlumVerif.SetM
@@ -33,6 +35,7 @@ structure Call where
 deriving Repr, DecidableEq, Inhabited
 
 structure Mon where
+  tracking : Bool          -- the controller currently announces parameter-version changes
   held : Triple            -- last triple reported (or initial) — what the library holds before the call
   call : Option Call
   nTx : Nat                -- set requests seen
@@ -42,8 +45,8 @@ structure Mon where
   returned : Bool
 deriving Repr, DecidableEq, Inhabited
 
-def Mon.init (held : Triple) : Mon :=
-  { held, call := none, nTx := 0, lastTx := none, openSet := false, confirmed := false, returned := false }
+def Mon.init (tracking : Bool) (held : Triple) : Mon :=
+  { tracking, held, call := none, nTx := 0, lastTx := none, openSet := false, confirmed := false, returned := false }
 
 /-- a set request at `t` comes less than `T` after the previous one -/
 def tooEarly (last : Option Nat) (T t : Nat) : Bool :=
@@ -61,10 +64,11 @@ def onEvent (m : Mon) : Ev → Mon
     match m.call with
     | none => { m with held := t }
     | some c => if t.value ≠ c.prev && !m.returned then { m with confirmed := true } else m
+  | .setTracking b => { m with tracking := b }
   | _ => m
 
 /-- check one output against the statement (`none` = violated) -/
-def onOut (tracking : Bool) (m : Mon) : Out → Option Mon
+def onOut (m : Mon) : Out → Option Mon
   | .txSet v t =>
     match m.call with
     | none => none                                             -- nothing is transmitted without a call
@@ -74,10 +78,9 @@ def onOut (tracking : Bool) (m : Mon) : Out → Option Mon
       else if c.r ≤ m.nTx then none                            -- at most `retries`
       else if tooEarly m.lastTx c.T t then none                 -- one per timeout interval
       else if m.openSet then none                              -- the previous one got its re-read first
-      else some { m with nTx := m.nTx + 1, lastTx := some t, openSet := !tracking }
+      else some { m with nTx := m.nTx + 1, lastTx := some t, openSet := !m.tracking }  -- re-read due iff not tracked now
   | .txRefresh _ =>
-    if tracking then none                                      -- no re-read when versions are tracked
-    else if !m.openSet then none                               -- exactly one per set request
+    if !m.openSet then none                                    -- exactly one per untracked set request, none otherwise
     else if m.returned then none
     else some { m with openSet := false }
   | .ret true _ =>
@@ -100,30 +103,30 @@ def onOut (tracking : Bool) (m : Mon) : Out → Option Mon
     | none => none
     | some c => if m.returned || c.inRange || m.nTx ≠ 0 then none else some { m with returned := true }
 
-def onOuts (tracking : Bool) (m : Mon) : List Out → Option Mon
+def onOuts (m : Mon) : List Out → Option Mon
   | [] => some m
-  | o :: os => match onOut tracking m o with
+  | o :: os => match onOut m o with
     | none => none
-    | some m' => onOuts tracking m' os
+    | some m' => onOuts m' os
 
-def check (tracking : Bool) (m : Mon) : List Item → Bool
+def check (m : Mon) : List Item → Bool
   | [] => true
   | it :: rest =>
-    match onOuts tracking (onEvent m it.ev) it.outs with
+    match onOuts (onEvent m it.ev) it.outs with
     | none => false
-    | some m' => check tracking m' rest
+    | some m' => check m' rest
 
 /-- index of the first item that violates the statement (for diagnostics) -/
-def firstBad (tracking : Bool) (m : Mon) (k : Nat) : List Item → Option Nat
+def firstBad (m : Mon) (k : Nat) : List Item → Option Nat
   | [] => none
   | it :: rest =>
-    match onOuts tracking (onEvent m it.ev) it.outs with
+    match onOuts (onEvent m it.ev) it.outs with
     | none => some k
-    | some m' => firstBad tracking m' (k + 1) rest
+    | some m' => firstBad m' (k + 1) rest
 
-/-- `held` = the triple the library holds when the observation starts -/
+/-- `tracking`, `held` = the tracking flag and the triple the library holds when the observation starts -/
 def spec (tracking : Bool) (held : Triple) (obs : List Item) : Bool :=
-  check tracking (Mon.init held) obs
+  check (Mon.init tracking held) obs
 
 /-- the model's own observation of a history -/
 def observe (s : St) : List Ev → List Item
